@@ -6,4 +6,4 @@ for p in $props; do
   for f in variants/$p/*.json; do
     echo "$p $f"
   done
-done | xargs -P 8 -L 1 bash -c 'out=$(./bin/xcheck -prop $0 -variant $1 2>&1 | grep -E "^(FIRED|MISSED|STALE|SILENT|FALSE-ALARM|CHECKER)" | tail -1); echo "$(basename $1 .json): ${out:-NO-OUTPUT}"' | sort
+done | xargs -P 8 -L 1 bash -c 'out=$(${XCHECK:-/verif/bin/xcheck} -prop $0 -variant $1 2>&1 | grep -E "^(FIRED|MISSED|STALE|SILENT|FALSE-ALARM|CHECKER)" | tail -1); echo "$(basename $1 .json): ${out:-NO-OUTPUT}"' | sort
